@@ -636,6 +636,480 @@ def rule_a_scan(ctx):
     ctx.check(not why, 'a', 'scan_returns_consumed_count', sc, sc.where(), 'Ok(remaining() at entry - remaining() at exit), no use of the buffer outside the two samples', 'scan_ack_blocks does not return the consumed byte count: ' + '; '.join(why))
 
 
+# --------------------------------------------------------------------------
+# (g) address-validation tokens: the address bytes written are the bytes of the value given
+# --------------------------------------------------------------------------
+
+def _is_param(d, k=None):
+    return d[0] == 'param' and (k is None or d[1] == k)
+
+
+def _is_path(d):
+    """the caller's own datum, untransformed: a parameter / captured variable or a field / variant projection of one"""
+    while d[0] in ('field', 'variant'):
+        d = d[1]
+    return d[0] in ('param', 'upvar')
+
+
+def _unwrapped(d):
+    """the value inside `x?` / the Some arm: field and variant projections stripped"""
+    while d[0] in ('field', 'variant'):
+        d = d[1]
+    return d
+
+
+def _lastseg(name):
+    return D._trait_form(name).rsplit('::', 1)[-1]
+
+
+def _own_blocks(body, br):
+    """{edge value: blocks reachable over that edge of the switch and over no other edge}"""
+    reach = {t: body.reachable_from(t) for _, t in br.edges}
+    tgts = [t for _, t in br.edges]
+    out = {}
+    for v, t in br.edges:
+        if tgts.count(t) != 1:
+            continue
+        own = set(reach[t])
+        for t2, r2 in reach.items():
+            if t2 != t:
+                own -= r2
+        out[v] = own
+    return out
+
+
+def _ip_ctor(x):
+    """'V4' / 'V6' when x constructs that IpAddr variant (constructor function value or aggregate)"""
+    if x[0] == 'const' and x[1] == 'fn' and re.search(r'(^|::)IpAddr::V[46]$', str(x[2])):
+        return x[2].rsplit('::', 1)[-1]
+    if x[0] == 'agg' and x[1] == 'adt' and re.search(r'(^|::)IpAddr::V[46]$', str(x[2])):
+        return x[2].rsplit('::', 1)[-1]
+    return None
+
+
+def _plain_read(d, buf):
+    """d is what a read of the buffer parameter returned, untransformed: the only calls are reads of `buf` and Result::ok"""
+    n = 0
+    for x in walk(d):
+        if x[0] == 'call':
+            nm = _lastseg(x[1])
+            if nm == 'ok':
+                continue
+            if (nm == 'get' or nm.startswith('get_')) and x[3] and _is_param(x[3][0], buf):
+                n += 1
+                continue
+            return False
+        if x[0] == 'phi':
+            return False
+    return n == 1
+
+
+def rule_g(ctx):
+    F = ctx.facts
+    enc = ctx.pfn('token::encode_ip')
+    dec = ctx.pfn('token::decode_ip')
+    ipk = [k for k in range(1, enc.argc + 1) if enc.locals[k][0].endswith('IpAddr')]
+    ctx.check(len(ipk) == 1 and enc.argc == 2, 'g', 'token_ip_encoder_found', enc, enc.where(), 'encode_ip(buf, ip: IpAddr)', 'token::encode_ip no longer takes a buffer and one IpAddr')
+    if len(ipk) != 1 or enc.argc != 2:
+        return
+    ip = ipk[0]
+    # the variant dispatch is on the address given, not on a value derived from it
+    dep = [br for br in branches(F, enc) if _contains(br.desc, lambda x: _is_param(x, ip))]
+    onv = [br for br in dep if br.desc[0] == 'discr' and _is_param(br.desc[1], ip)]
+    other = [br for br in dep if br not in onv]
+    ctx.check(len(onv) >= 1 and not other, 'g', 'token_ip_dispatch_on_value', enc, (other or onv or [enc])[0].where(), 'match on the IpAddr parameter itself',
+              'token::encode_ip does not dispatch on the address it was given but on %s: the token holds a different address than the one encoded'
+              % (' | '.join(D.render(br.desc)[:100] for br in other) or 'nothing'))
+    # per variant arm: one constant tag byte, then the bytes of that variant's own payload
+    enc_tab = {}
+    enc_sites = {}
+    why = []
+    payload = lambda x: x[0] == 'field' and x[2] == '0' and x[1][0] == 'variant' and _is_param(x[1][1], ip)
+    for br in onv:
+        for v, own in sorted(_own_blocks(enc, br).items(), key=str):
+            tags, pay = [], []
+            for c in enc.calls():
+                if c.bb not in own:
+                    continue
+                args = [arg_desc(F, c, k) for k in range(len(c.args))]
+                if not any(_is_param(a) and a[1] != ip for a in args):
+                    continue
+                for a in args:
+                    if _is_param(a) and a[1] != ip:
+                        continue
+                    vs = evs(a)
+                    if vs is not None and len(vs) == 1:
+                        tags.append((next(iter(vs)), c))
+                    elif payload(a) or (a[0] == 'call' and _lastseg(a[1]) == 'octets' and len(a[3]) == 1 and payload(a[3][0])):
+                        pay.append(((a if payload(a) else a[3][0])[1][2], c))
+                    else:
+                        why.append('%s writes %s, which is not the address bytes of the value given' % (c.where(), D.render(a)[:100]))
+            if not tags and not pay:
+                continue
+            names = {n for n, _ in pay}
+            if len(tags) != 1 or len(names) != 1:
+                why.append('an arm writes %d tag byte(s) and the payload of %s' % (len(tags), sorted(names) or 'no variant'))
+                continue
+            if not all(enc.dominates(tags[0][1].bb, c.bb) and tags[0][1].bb != c.bb for _, c in pay):
+                why.append('%s: the tag byte is not written before the address bytes' % tags[0][1].where())
+            name = next(iter(names))
+            # (with `if let .. else if let ..` the arm of the inner switch is also seen over the outer `otherwise` edge: same site)
+            if name in enc_sites and enc_sites[name] != tags[0][1].bb:
+                why.append('variant %s encoded twice' % name)
+            enc_sites[name] = tags[0][1].bb
+            enc_tab[name] = tags[0][0]
+    ctx.check(set(enc_tab) == {'V4', 'V6'} and not why, 'g', 'token_ip_payload_of_own_variant', enc, enc.where(), 'tag byte then octets of the matched variant: %s' % sorted(enc_tab.items()),
+              'token::encode_ip arms %s: %s' % (sorted(enc_tab.items()), '; '.join(why) or 'not exactly the variants V4 and V6'))
+    # decode table: tag byte -> variant constructed on that edge; the constructed address is the bytes read, untransformed
+    bufs = [k for k in range(1, dec.argc + 1)]
+    dsw = [br for br in branches(F, dec) if br.desc[0] != 'discr' and len([v for v, _ in br.edges if v is not None]) >= 2 and bufs and _plain_read(br.desc, bufs[0])]
+    ctx.check(len(dsw) == 1 and dec.argc == 1, 'g', 'token_ip_decoder_dispatch', dec, dec.where(), 'match on the tag byte read from the buffer', 'cannot locate the tag dispatch of token::decode_ip')
+    dec_tab = {}
+    dwhy = []
+    dxd = describer(F, dec)
+    for br in dsw[:1]:
+        for v, own in _own_blocks(dec, br).items():
+            ks = set()
+            for c in dec.calls():
+                if c.bb in own:
+                    for k in range(len(c.args)):
+                        ks |= {_ip_ctor(x) for x in walk(arg_desc(F, c, k))}
+            for i, j, pl, rv, line in dec.assigns():
+                if i in own:
+                    ks |= {_ip_ctor(x) for x in walk(dxd.rvalue(rv, i, j, 0))}
+            ks.discard(None)
+            if v is None:
+                if ks:
+                    dwhy.append('an unknown tag byte yields an address')
+            elif len(ks) != 1:
+                dwhy.append('tag %d constructs %s' % (v, sorted(ks) or 'nothing'))
+            else:
+                dec_tab[v] = next(iter(ks))
+    for _, r in ret_descs(F, dec):
+        for x in flat(r):
+            if x[0] == 'agg' and x[2].endswith('Option::None'):
+                continue
+            if x[0] == 'call' and _lastseg(x[1]) == 'from_residual':
+                continue
+            if x[0] == 'call' and _lastseg(x[1]) == 'map' and len(x[3]) == 2 and _ip_ctor(x[3][1]) and _plain_read(x[3][0], 1):
+                continue
+            if x[0] == 'agg' and x[2].endswith('Option::Some') and len(x[3]) == 1 and _ip_ctor(x[3][0]) and x[3][0][0] == 'agg' and len(x[3][0][3]) == 1 and _plain_read(x[3][0][3][0], 1):
+                continue
+            dwhy.append('returns %s, not IpAddr::Vn(<the bytes read>)' % D.render(x)[:120])
+    inv = {t: n for n, t in enc_tab.items()}
+    ctx.check(bool(dec_tab) and dec_tab == inv and not dwhy, 'g', 'token_ip_tag_tables_inverse', dec, dec.where(), 'decode %s = inverse of encode %s' % (sorted(dec_tab.items()), sorted(enc_tab.items())),
+              'token::decode_ip arms %s are not the inverse of token::encode_ip %s%s' % (sorted(dec_tab.items()), sorted(enc_tab.items()), ('; ' + '; '.join(dwhy)) if dwhy else ''))
+    # every caller hands over the stored address untransformed (SocketAddr::ip is the only projection)
+    ea = ctx.pfn('token::encode_addr')
+    da = ctx.pfn('token::decode_addr')
+    n = 0
+    bad = []
+    for c in F.all_calls('quinn_proto'):
+        if c.is_('token::encode_ip') and len(c.args) == 2:
+            n += 1
+            a = arg_desc(F, c, ip - 1)
+            if not (_is_path(a) or (a[0] == 'call' and a[1] == 'SocketAddr::ip' and len(a[3]) == 1 and _is_path(a[3][0]))):
+                bad.append('%s passes %s to encode_ip' % (c.where(), D.render(a)[:100]))
+        elif c.is_('token::encode_addr') and len(c.args) == 2:
+            n += 1
+            a = [arg_desc(F, c, k) for k in range(2)]
+            a = [x for x in a if not (x[0] == 'call' and _lastseg(x[1]) == 'new')][-1]
+            if not _is_path(a):
+                bad.append('%s passes %s to encode_addr' % (c.where(), D.render(a)[:100]))
+    ctx.floor('g', 'token_address_encode_sites', n, 3)
+    # encode_addr: ip then port of the same address ; decode_addr: SocketAddr::new(<decode_ip>, <port read>) in that order
+    ak = [k for k in range(1, ea.argc + 1) if ea.locals[k][0].endswith('SocketAddr')]
+    parts = []
+    for c in ea.calls():
+        args = [arg_desc(F, c, k) for k in range(len(c.args))]
+        if any(_is_param(a) and a[1] not in ak for a in args):
+            parts += [(a, c) for a in args if not (_is_param(a) and a[1] not in ak)]
+    shape = [(_lastseg(a[1]) if a[0] == 'call' and len(a[3]) == 1 and _is_param(a[3][0]) and a[3][0][1] in ak else D.render(a)[:60]) for a, _ in parts]
+    if not (len(ak) == 1 and sorted(shape) == ['ip', 'port'] and ea.dominates(parts[shape.index('ip')][1].bb, parts[shape.index('port')][1].bb)):
+        bad.append('encode_addr writes %s instead of address.ip() then address.port()' % shape)
+    okd = False
+    for _, r in ret_descs(F, da):
+        for x in flat(r):
+            if x[0] == 'agg' and x[2].endswith('Option::Some') and len(x[3]) == 1:
+                sa = x[3][0]
+                a, b = (sa[3] + (None, None))[:2] if sa[0] == 'call' and sa[1] == 'SocketAddr::new' else (None, None)
+                ua, ub = (_unwrapped(a), _unwrapped(b)) if a and b else (None, None)
+                if ua and ua[0] == 'call' and ua[1] == 'token::decode_ip' and _plain_read(b, 1) and len(ua) > 4 and all(da.dominates(ua[4], y[4]) for y in walk(b) if y[0] == 'call' and _lastseg(y[1]) != 'ok' and len(y) > 4):
+                    okd = True
+                else:
+                    bad.append('decode_addr returns %s instead of SocketAddr::new(decode_ip(buf)?, <port read>)' % D.render(sa)[:120])
+    if not okd:
+        bad.append('decode_addr no longer returns Some(SocketAddr::new(decode_ip(buf)?, <port read>))')
+    # Token::decode stores the decoded address as decoded
+    td = ctx.pfn('Token::decode')
+    stored = {}
+    for _, r in ret_descs(F, td):
+        for x in walk(r):
+            if x[0] == 'agg' and x[1] == 'adt' and '::TokenPayload::' in '::' + x[2] and len(x) > 4:
+                for nm, val in zip(x[4], x[3]):
+                    if nm in ('address', 'ip'):
+                        u = _unwrapped(val)
+                        stored[nm] = u[1] if u[0] == 'call' else D.render(val)[:80]
+    if stored != {'address': 'token::decode_addr', 'ip': 'token::decode_ip'}:
+        bad.append('Token::decode stores %s' % sorted(stored.items()))
+    ctx.check(not bad, 'g', 'token_address_passed_unchanged', ea, ea.where(), 'callers pass the stored address (or its .ip()) as is; ip then port; Token::decode stores decode_addr / decode_ip results as is',
+              'a token address is transformed between the payload and the wire: ' + '; '.join(bad))
+
+
+# --------------------------------------------------------------------------
+# (h) preferred_address: a family is absent <=> its own (ip, port) pair is the all-zero placeholder that write() emits
+# --------------------------------------------------------------------------
+
+def _bconst(d):
+    if d[0] != 'const':
+        return None
+    return {'0': False, 'false': False, '1': True, 'true': True}.get(str(d[2]).split('_')[0])
+
+
+def _and3(a, b):
+    return False if (a is False or b is False) else (True if (a is True and b is True) else None)
+
+
+def _not3(a):
+    return None if a is None else (not a)
+
+
+def _truth(d, val):
+    """three-valued value of a boolean descriptor when the atoms ('unspec', X) [X is the unspecified address] and
+    ('zero', X) [X == 0] listed in `val` have the given truth value and every other atom is free"""
+    t = d[0]
+    if t == 'const':
+        return _bconst(d)
+    if t == 'un' and d[1] == 'Not':
+        return _not3(_truth(d[2], val))
+    if t == 'bin' and d[1] == 'BitAnd':
+        return _and3(_truth(d[2], val), _truth(d[3], val))
+    if t == 'bin' and d[1] == 'BitOr':
+        return _not3(_and3(_not3(_truth(d[2], val)), _not3(_truth(d[3], val))))
+    if t == 'bin' and d[1] in ('Eq', 'Ne'):
+        for a, b in ((d[2], d[3]), (d[3], d[2])):
+            if _is_c(a, 0) and not a[3]:
+                r = val.get(('zero', b))
+                return r if d[1] == 'Eq' else _not3(r)
+            if a[0] == 'const' and str(a[3]).endswith('::UNSPECIFIED'):
+                r = val.get(('unspec', b))
+                return r if d[1] == 'Eq' else _not3(r)
+        return None
+    if t == 'bin' and d[1] == 'Lt':
+        if _is_c(d[2], 0):          # 0 < X
+            return _not3(val.get(('zero', d[3])))
+        if _is_c(d[3], 1):          # X < 1
+            return val.get(('zero', d[2]))
+        return None
+    if t == 'bin' and d[1] == 'Le':
+        if _is_c(d[3], 0):          # X <= 0
+            return val.get(('zero', d[2]))
+        if _is_c(d[2], 1):          # 1 <= X
+            return _not3(val.get(('zero', d[3])))
+        return None
+    if t == 'call':
+        nm = _lastseg(d[1])
+        if nm == 'is_unspecified' and len(d[3]) == 1:
+            return val.get(('unspec', d[3][0]))
+        if nm in ('eq', 'ne') and len(d[3]) == 2:
+            for a, b in ((d[3][0], d[3][1]), (d[3][1], d[3][0])):
+                if a[0] == 'const' and str(a[3]).endswith('::UNSPECIFIED'):
+                    r = val.get(('unspec', b))
+                    return r if nm == 'eq' else _not3(r)
+        return None
+    if t == 'phi':
+        vs = {_truth(x, val) for x in d[1]}
+        return next(iter(vs)) if len(vs) == 1 else None
+    return None
+
+
+def decide(F, body, val, opt_ty=None, obs_adt=None):
+    """walk the body from the entry with the atoms of `val` fixed and everything else free.  Boolean locals assigned on the
+    way carry their value to later branches, so short-circuit and strict conjunctions, negated forms, named booleans and
+    `match` on the pair are all followed by what they compute, not by how they are written.  Locals whose type matches
+    `opt_ty` carry 'none' / 'some' (the Option variant last stored, copies followed).  Returns (blocks reached,
+    {field name: set of 'none' | 'some' | '?'} seen in the operands of every reached construction of `obs_adt`)"""
+    dx = describer(F, body)
+    brs = {br.bb: br for br in branches(F, body)}
+    plain = lambda o: o[0] in ('c', 'm') and not o[1][1]
+    watched = lambda l: opt_ty is not None and re.search(opt_ty, body.locals[l][0]) is not None
+    seen, out, obs = set(), set(), {}
+    stack = [(0, frozenset())]
+    while stack:
+        bb, env = stack.pop()
+        if (bb, env) in seen or body.blocks[bb]['c']:
+            continue
+        seen.add((bb, env))
+        out.add(bb)
+        e = dict(env)
+        blk = body.blocks[bb]
+
+        def op(o, j):
+            if plain(o) and o[1][0] in e:
+                return e[o[1][0]]
+            return _truth(dx.operand(o, bb, j), val)
+        for j, s in enumerate(blk['s']):
+            if s[0] != '=':
+                continue
+            dst, rv = s[1], s[2]
+            if obs_adt and rv[0] == 'agg' and rv[1][0] == 'adt' and rv[1][1].endswith(obs_adt):
+                for nm, o in zip(rv[1][3], rv[2]):
+                    obs.setdefault(nm, set()).add(e.get(o[1][0], '?') if plain(o) else '?')
+            if dst[1]:
+                e.pop(dst[0], None)
+                continue
+            v = None
+            if rv[0] == 'use' and plain(rv[1]) and rv[1][1][0] in e:
+                v = e[rv[1][1][0]]
+            elif body.locals[dst[0]][0] == 'bool':
+                if rv[0] == 'use':
+                    v = op(rv[1], j)
+                elif rv[0] == 'un' and rv[1] == 'Not':
+                    v = _not3(op(rv[2], j))
+                elif rv[0] == 'bin' and rv[1] == 'BitAnd':
+                    v = _and3(op(rv[2], j), op(rv[3], j))
+                elif rv[0] == 'bin' and rv[1] == 'BitOr':
+                    v = _not3(_and3(_not3(op(rv[2], j)), _not3(op(rv[3], j))))
+                else:
+                    v = _truth(dx.rvalue(rv, bb, j, 0), val)
+            elif watched(dst[0]) and rv[0] == 'agg' and rv[1][0] == 'adt' and rv[1][1].endswith('::Option'):
+                v = 'none' if rv[1][2] == 'None' else 'some'
+            if v is None:
+                e.pop(dst[0], None)
+            else:
+                e[dst[0]] = v
+        t = blk['t']
+        succ = list(body.succ[bb])
+        if t[0] == 'call' and isinstance(t[1], dict) and t[1].get('dst'):
+            e.pop(t[1]['dst'][0], None)
+        br = brs.get(bb)
+        if t[0] == 'switch' and br is not None:
+            # a boolean scrutinee (a local carried in `e`, or any place -- e.g. a field of the matched pair -- whose value
+            # the atoms decide); otherwise an integer scrutinee with a `0` arm
+            v = e[t[1][1][0]] if (plain(t[1]) and t[1][1][0] in e) else _truth(br.desc, val)
+            if v is True or v is False:
+                succ = [br.target(1 if v else 0)]
+            else:
+                z = val.get(('zero', br.desc))
+                if z is True:
+                    succ = [br.target(0)]
+                elif z is False and any(v_ == 0 for v_, _ in br.edges):
+                    succ = [tg for v_, tg in br.edges if v_ != 0]
+        ne = frozenset(e.items())
+        for s_ in succ:
+            stack.append((s_, ne))
+    return out, obs
+
+
+def _dom_pos(body, sites):
+    """position of every site (a block) in the dominance chain of `sites`; None when they are not totally ordered"""
+    pos = {}
+    for s in sites:
+        pos[s] = sum(1 for o in sites if o != s and body.dominates(o, s))
+    return pos if sorted(pos.values()) == list(range(len(sites))) else None
+
+
+def rule_h(ctx):
+    F = ctx.facts
+    rd = ctx.pfn('PreferredAddress::read')
+    wr = ctx.pfn('PreferredAddress::write')
+    dx = describer(F, rd)
+    live = rd.live_blocks()
+    fams = {}
+    for i, j, pl, rv, line in rd.assigns():
+        if i not in live or pl[1] or rv[0] != 'agg' or rv[1][0] != 'adt' or not rv[1][1].endswith('::Option'):
+            continue
+        m = re.search(r'Option<[\w:]*SocketAddr(V[46])>$', rd.locals[pl[0]][0])
+        if not m:
+            continue
+        f = fams.setdefault(m.group(1), {'none': set(), 'some': set(), 'pair': set()})
+        if rv[1][2] == 'None':
+            f['none'].add(i)
+        else:
+            f['some'].add(i)
+            x = dx.rvalue(rv, i, j, 0)
+            sa = x[3][0] if x[0] == 'agg' and len(x[3]) == 1 else None
+            if sa and sa[0] == 'call' and _lastseg(sa[1]) == 'new' and ('SocketAddr' + m.group(1)) in sa[1] and len(sa[3]) >= 2:
+                f['pair'].add((sa[3][0], sa[3][1]))
+            else:
+                f['pair'].add(None)
+    pairs = {}
+    for fam in ('V4', 'V6'):
+        f = fams.get(fam)
+        inst = 'preferred_address_absent_iff_placeholder[%s]' % fam
+        if not f or not f['none'] or not f['some'] or len(f['pair']) != 1 or None in f['pair']:
+            ctx.bad('h', inst, rd, rd.where(), 'cannot locate `None` / `Some(SocketAddr%s::new(ip, port, ..))` for the %s half of PreferredAddress::read' % (fam, fam))
+            continue
+        ipd, pod = next(iter(f['pair']))
+        pairs[fam] = (ipd, pod)
+        why = []
+        field = 'address_' + fam.lower()
+        for u in (True, False):
+            for z in (True, False):
+                _, obs = decide(F, rd, {('unspec', ipd): u, ('zero', pod): z}, opt_ty=r'Option<[\w:]*SocketAddrV[46]>$', obs_adt='::PreferredAddress')
+                got = obs.get(field, set())
+                case = 'ip %s unspecified, port %s 0' % ('is' if u else 'is not', '==' if z else '!=')
+                if got != ({'none'} if (u and z) else {'some'}):
+                    why.append('%s: %s is %s' % (case, field, ' or '.join(sorted({'none': 'None', 'some': 'Some(..)', '?': 'not decidable'}[g] for g in got)) or 'never stored'))
+        ctx.check(not why, 'h', inst, rd, rd.where(), 'None <=> %s is unspecified && %s == 0, for the operands of SocketAddr%s::new' % (D.render(ipd)[:40], D.render(pod)[:40], fam),
+                  'the %s half of preferred_address is not absent exactly when ITS OWN ip is unspecified and ITS OWN port is 0 (write() emits that placeholder for None): %s' % (fam, '; '.join(why)))
+    # field order: position of each read on the buffer = position of the write that emits that half
+    NOT_CONSUMING = ('remaining', 'has_remaining', 'chunk', 'len', 'is_empty')
+    rsites = [c for c in rd.calls() if c.bb in live and c.args and _is_param(arg_desc(F, c, 0)) and _lastseg(short(c.f)) not in NOT_CONSUMING]
+    wsites = [c for c in wr.calls() if c.bb in wr.live_blocks() and c.args and _is_param(arg_desc(F, c, 0)) and arg_desc(F, c, 0)[1] != 1]
+    rpos = _dom_pos(rd, [c.bb for c in rsites])
+    wpos = _dom_pos(wr, [c.bb for c in wsites])
+    ctx.check(rpos is not None and wpos is not None and len(rsites) >= 4 and len(wsites) >= 4, 'h', 'preferred_address_layout_found', rd, rd.where(), '%d reads / %d writes in a fixed order' % (len(rsites), len(wsites)),
+              'cannot order the buffer reads of PreferredAddress::read / writes of PreferredAddress::write')
+    if rpos is None or wpos is None:
+        return
+    wfam = {}
+    wargs = {}
+    for c in wsites:
+        for k in range(1, len(c.args)):
+            a = arg_desc(F, c, k)
+            for x in walk(a):
+                if x[0] == 'field' and x[2] in ('address_v4', 'address_v6') and _is_param(x[1], 1):
+                    wfam.setdefault('V' + x[2][-1], set()).add(wpos[c.bb])
+                    wargs[wpos[c.bb]] = a
+    why = []
+    for fam, (ipd, pod) in sorted(pairs.items()):
+        got = []
+        for d in (ipd, pod):
+            reads = [x for x in walk(d) if x[0] == 'call' and len(x) > 4 and x[3] and _is_param(x[3][0]) and x[4] in rpos and _lastseg(x[1]) not in NOT_CONSUMING]
+            got.append(rpos[reads[0][4]] if len(reads) == 1 and _plain_read(d, reads[0][3][0][1]) else None)
+        want = sorted(wfam.get(fam, ()))
+        if got != want or len(want) != 2:
+            why.append('SocketAddr%s::new takes reads #%s of the buffer, write() emits address_%s at #%s' % (fam, got, fam.lower(), want))
+    ctx.check(len(pairs) == 2 and not why, 'h', 'preferred_address_field_order', rd, rd.where(), 'ip, port of each family are read at the positions where write() emits them: %s' % sorted((k, sorted(v)) for k, v in wfam.items()),
+              'PreferredAddress::read pairs values that write() does not emit together: ' + '; '.join(why))
+    # the placeholder emitted for an absent half is (UNSPECIFIED, 0), i.e. what read() tests; the present half emits ip then port
+    why = []
+    n = 0
+    for fam in ('V4', 'V6'):
+        for idx, p in enumerate(sorted(wfam.get(fam, ()))[:2]):
+            a = wargs[p]
+            dflt = clo = None
+            if a[0] == 'call' and a[1] == 'Option::map_or' and len(a[3]) == 3:
+                dflt, clo = a[3][1], a[3][2]
+            elif a[0] == 'call' and a[1] == 'Option::unwrap_or' and len(a[3]) == 2 and a[3][0][0] == 'call' and a[3][0][1] == 'Option::map' and len(a[3][0][3]) == 2:
+                dflt, clo = a[3][1], a[3][0][3][1]
+            if dflt is None:
+                why.append('write #%d: cannot tell the value emitted for an absent address_%s: %s' % (p, fam.lower(), D.render(a)[:80]))
+                continue
+            n += 1
+            rets = [x for b in closures_of(F, wr, clo) for _, x in ret_descs(F, b)] if clo[0] == 'agg' else []
+            proj = {_lastseg(x[1]) if x[0] == 'call' and len(x[3]) == 1 and x[3][0][0] == 'param' else '?' for x in rets}
+            if idx == 0:
+                okp = dflt[0] == 'const' and str(dflt[3]).endswith('Ipv%sAddr::UNSPECIFIED' % fam[1]) and proj == {'ip'}
+            else:
+                okp = _is_c(dflt, 0) and not dflt[3] and proj == {'port'}
+            if not okp:
+                why.append('write #%d emits %s(default %s) for address_%s; read() expects %s' % (p, sorted(proj), D.render(dflt)[:40], fam.lower(), 'ip or UNSPECIFIED' if idx == 0 else 'port or 0'))
+    ctx.check(n == 4 and not why, 'h', 'preferred_address_placeholder_written', wr, wr.where(), 'absent half is written as (UNSPECIFIED, 0), present half as (ip, port)',
+              'PreferredAddress::write does not emit the placeholder that read() maps back to None: ' + ('; '.join(why) or '%d of 4 writes recognised' % n))
+
+
 def run(ctx):
     _c03.guarded_reads(ctx, 'a')
     rule_a_scan(ctx)
@@ -644,3 +1118,5 @@ def run(ctx):
     rule_d(ctx)
     rule_e(ctx)
     rule_f(ctx)
+    rule_g(ctx)
+    rule_h(ctx)
